@@ -57,7 +57,7 @@ Proof.
   change (zlen shp) with (Z.of_nat (length shp)). rewrite !np_arange_0.
   rewrite (ones_loop shp (length shp) 0%nat []) by lia. cbn [skipn app].
   destruct (forallb (fun d => 0 <=? d) shp) eqn:Enn.
-  - assert (Ez : np_zeros2_ok (zprod shp) (zlen shp) = true).
+  - assert (Ez : np_zeros2_ok (zprod shp) (Z.of_nat (length shp)) = true).
     { unfold np_zeros2_ok. apply andb_true_intro. split; apply Z.leb_le; [apply zprod_nonneg; exact Enn|apply Zle_0_nat]. }
     rewrite Ez. cbn [bind].
     rewrite (np_for_foldM _ (allsubs_step shp)).
@@ -70,7 +70,7 @@ Proof.
       destruct (khatrirao _ false) as [K|]; cbn [is_ok res_get bind andb]; [|reflexivity].
       destruct (np_squeeze_col_ok K); cbn [andb bind]; [|reflexivity].
       destruct (np_setcol_ok s (Z.of_nat k) (np_squeeze_col K)); reflexivity.
-  - destruct (np_zeros2_ok (zprod shp) (zlen shp)); reflexivity.
+  - destruct (np_zeros2_ok (zprod shp) (Z.of_nat (length shp))); reflexivity.
 Qed.
 
 (* no mode: one subscript, the empty one *)
@@ -92,3 +92,43 @@ Example allsubs_examples :
   sptensor_allsubs (mkspt [] [] [4]) = Ok [[0]; [1]; [2]; [3]] /\
   sptensor_allsubs (mkspt [] [] [2; 2; 2; 2]) = Ok (subs_C [2; 2; 2; 2]).
 Proof. repeat split; vm_compute; reflexivity. Qed.
+
+(* one mode of size d >= 1: the subscripts 0 .. d-1 *)
+Lemma khatrirao_single (M : mat) : M <> [] -> forallb (fun r => zlen r =? 1) M = true -> khatrirao [M] false = Ok M.
+Proof.
+  intros Hne Hr. unfold khatrirao.
+  change (zlen [M] =? 1) with true. cbn [negb orb andb bind forallb tl np_for].
+  change (idx_ok [M] 0) with true. change (znth [] [M] 0) with M. cbn [andb negb].
+  assert (Ec : np_ncols M = 1).
+  { destruct M as [|r M']; [congruence|]. cbn [np_ncols]. cbn [forallb] in Hr. apply andb_true_iff in Hr as [Hr _]. apply Z.eqb_eq; exact Hr. }
+  rewrite Ec. change (zlen [M] =? 1) with true. cbn [Z.eqb Pos.eqb andb negb].
+  unfold np_reshape_ok. rewrite Hr. reflexivity.
+Qed.
+
+Theorem allsubs_one_mode subs vals d : 1 <= d -> sptensor_allsubs (mkspt subs vals [d]) = Ok (map (fun x => [x]) (np_arange 0 d)).
+Proof.
+  intros Hd. rewrite sptensor_allsubs_bridge. unfold H_allsubs. cbn [spt_shape].
+  change (zlen [d] =? 0) with false. cbn [forallb]. destruct (Z.leb_spec 0 d); [|lia]. cbn [andb].
+  change (np_arange 0 (zlen [d])) with [0]. cbn [foldM]. unfold allsubs_step, allsubs_col.
+  change (np_set (map np_ones_col [d]) 0 (np_col_mat (np_arange 0 (znth 0 [d] 0)))) with [np_col_mat (np_arange 0 d)].
+  assert (Hne : np_col_mat (np_arange 0 d) <> []).
+  { unfold np_col_mat, np_arange. replace (Z.to_nat (d - 0)) with (S (Z.to_nat (d - 1))) by lia. cbn. discriminate. }
+  assert (Hr : forallb (fun r => zlen r =? 1) (np_col_mat (np_arange 0 d)) = true).
+  { unfold np_col_mat. apply forallb_forall. intros r Hin. apply in_map_iff in Hin as (x & <- & _). reflexivity. }
+  rewrite (khatrirao_single _ Hne Hr). cbn [bind]. unfold np_squeeze_col_ok. rewrite Hr.
+  assert (Es : np_squeeze_col (np_col_mat (np_arange 0 d)) = np_arange 0 d).
+  { unfold np_squeeze_col, np_col_mat. rewrite map_map. apply map_id. }
+  rewrite Es. cbn [bind].
+  assert (Hlen : length (np_arange 0 d) = length (np_zeros2 (zprod [d]) (zlen [d]))).
+  { unfold np_arange, np_zeros2, np_full. rewrite map_length, seq_length, repeat_length. cbn [zprod fold_right]. f_equal. lia. }
+  assert (Eok : np_setcol_ok (np_zeros2 (zprod [d]) (zlen [d])) 0 (np_arange 0 d) = true).
+  { unfold np_setcol_ok. apply andb_true_intro. split.
+    - unfold np_col_ok, np_zeros2, np_full. apply forallb_forall. intros r Hin. apply repeat_spec in Hin. subst r. reflexivity.
+    - apply orb_true_intro. left. apply Z.eqb_eq. unfold zlen. rewrite Hlen. reflexivity. }
+  rewrite Eok. cbn [bind foldM]. f_equal. rewrite np_setcol_eq by exact Hlen.
+  assert (Ez : np_zeros2 (zprod [d]) (zlen [d]) = repeat [0] (length (np_arange 0 d))).
+  { unfold np_zeros2, np_full. cbn [zprod fold_right]. change (Z.to_nat (zlen [d])) with 1%nat. cbn [repeat].
+    f_equal. unfold np_arange. rewrite map_length, seq_length. f_equal. lia. }
+  rewrite Ez. generalize (np_arange 0 d). intros l.
+  induction l as [|x l IH]; [reflexivity|]. cbn [length repeat setcol_rows map]. rewrite IH. reflexivity.
+Qed.
